@@ -125,7 +125,7 @@ def kt_family(tier):
         depth = 5
     else:
         triples = list(itertools.product(KT_ALPHABET, repeat=3))
-        depth = 6
+        depth = 5       # (depth 6 on the 1 152 schemas of this tier did not finish in 7 minutes on 16 cores)
     for kts in triples:
         for lab in kt_contents(tier):
             fam.append(("kt", lab, kts, depth))
